@@ -161,7 +161,8 @@ class P:
     def stmts(self):
         out = []
         while self.peek() is not None and self.peek() != "}":
-            out.append(self.stmt())
+            a = self.alloc_sequence()
+            out.append(a if a is not None else self.stmt())
         return out
 
     # -- recognised as a whole -------------------------------------------------------------------------------------------
@@ -177,6 +178,29 @@ class P:
                            r"(?P=b)->next=blocks;blocks=(?P=b);"
                            r"for\(Item\*(?P<i>\w+)=\(Item\*\)\((?P=b)\+1\),\*(?P<e>\w+)=(?P=i)\+(?P=n);(?P=i)<(?P=e);\+\+(?P=i)\)"
                            r"\{(?P=i)->prev=(?P<x>\w+);(?P=x)=(?P=i);\}freeItem=(?P=x);\}")
+
+    BLOCK_FIRST_SEQ = re.compile(BLOCK_FIRST.pattern[2:-2])
+    BLOCK_ALL_SEQ = re.compile(BLOCK_ALL.pattern[2:-2].replace(r"freeItem=(?P=x);", r"(?P<st>freeItem=(?P=x);)?"))
+
+    def alloc_sequence(self):
+        """the item block allocation as a statement sequence at the cursor: ('allocfirst', x) | ('allocall', x) |
+        ('allocall_local', x), consumed; or None"""
+        if self.peek() != "ItemBlock":
+            return None
+        text = "".join(self.t[self.i:])
+        for rx, kind in ((self.BLOCK_FIRST_SEQ, "allocfirst"), (self.BLOCK_ALL_SEQ, "allocall")):
+            m = rx.match(text)
+            if m:
+                n, j = 0, self.i
+                while n < m.end():
+                    n += len(self.t[j]); j += 1
+                if n != m.end():
+                    return None
+                self.i = j
+                if kind == "allocall" and not m.group("st"):
+                    kind = "allocall_local"
+                return (kind, m.group("x"))
+        return None
 
     def block_text(self, j):
         if self.t[j] != "{":
@@ -202,12 +226,12 @@ class P:
                     if self.peek() == "else":
                         raise Refuse(f"{self.fn}: the bucket array allocation has an else branch")
                     return ("allocdata",)
-                m = self.BLOCK_ALL.fullmatch(text)
+                m = self.BLOCK_ALL_SEQ.fullmatch(text[1:-1])
                 if m and c == ("not", ("id", m.group("x"))):
                     self.i = k
                     if self.peek() == "else":
                         raise Refuse(f"{self.fn}: the block allocation has an else branch")
-                    return ("allocall", m.group("x"))
+                    return ("allocall" if m.group("st") else "allocall_local", m.group("x"))
                 raise Refuse(f"{self.fn}: `new char[` in a statement that is neither the understood bucket array allocation "
                              f"nor the understood item block allocation")
             a = self.stmt()
@@ -215,7 +239,10 @@ class P:
             if self.peek() == "else":
                 self.eat("else")
                 text, k = self.block_text(self.i)
-                if text is not None and "newchar[" in text:
+                if text is not None and "newchar[" in text and c == ("id", "data") and self.DATA_ALLOC.fullmatch(text):
+                    self.i = k
+                    b = ("allocdata",)
+                elif text is not None and "newchar[" in text:
                     m = self.BLOCK_FIRST.fullmatch(text)
                     if not m:
                         raise Refuse(f"{self.fn}: `new char[` in an else branch that is not the understood item block allocation")
@@ -252,7 +279,10 @@ class P:
             e = self.expr()
             self.eat(";")
             return ("return", e)
-        if tok in ("do", "switch", "goto", "break", "continue", "delete", "try", "throw"):
+        if tok == "break":
+            self.eat(); self.eat(";")
+            return ("break",)
+        if tok in ("do", "switch", "goto", "continue", "delete", "try", "throw"):
             raise Refuse(f"{self.fn}: statement `{tok}` is outside the translated subset")
         text = self.text_upto_semicolon()
         if text == "endItem.next=0":
@@ -276,10 +306,10 @@ class P:
                 return ("decl", "Item*", m.group(1), ("item_of_value",))
         if tok == "new":
             raise Refuse(f"{self.fn}: `new` expression outside the understood forms")
-        if tok == "const" and self.peek(1) in ("Item", "usize", "Iterator"):
+        if tok == "const" and self.peek(1) in ("Item", "usize", "Iterator", "ItemBlock"):
             self.eat()
             tok = self.peek()
-        if tok in ("Item", "usize", "Iterator", "ItemBlock") and (self.peek(1) == "*" or IDENT.match(self.peek(1) or "")):
+        if tok in ("Item", "usize", "Iterator", "ItemBlock") and (self.peek(1) in ("*", "const") or IDENT.match(self.peek(1) or "")):
             ds = self.declaration()
             self.eat(";")
             return ds[0] if len(ds) == 1 else ("block*", ds)
@@ -293,8 +323,9 @@ class P:
         out = []
         while True:
             ty = base
-            while self.peek() == "*":
-                self.eat("*"); ty += "*"
+            while self.peek() in ("*", "const"):
+                if self.eat() == "*":
+                    ty += "*"
             name = self.eat()
             if not IDENT.match(name):
                 raise Refuse(f"{self.fn}: declarator `{name}`")
@@ -328,10 +359,15 @@ class P:
         while self.peek() == "||":
             self.eat()
             lhs = ("or", lhs, self.equality())
+        if self.peek() == "?":
+            self.eat("?")
+            a = self.expr()
+            self.eat(":")
+            return ("cond", lhs, a, self.expr())
         if self.peek() == "=":
             self.eat("=")
             return ("assign", lhs, self.expr())
-        if self.peek() in ("&&", "?", "+", "-", "*", "/", "<=", ">=", ">", "|", "^", "&"):
+        if self.peek() in ("&&", "+", "-", "*", "/", "<=", ">=", ">", "|", "^", "&"):
             raise Refuse(f"{self.fn}: operator `{self.peek()}` is outside the translated subset")
         return lhs
 
@@ -345,7 +381,8 @@ class P:
     def relational(self):
         a = self.mult()
         if self.peek() == "<":
-            raise Refuse(f"{self.fn}: operator `<` is outside the translated subset")
+            self.eat()
+            return ("bin", "<", a, self.mult())
         return a
 
     def mult(self):
@@ -565,6 +602,16 @@ class Tr:
                 return self.ev(e[3], env2, ind2, lambda tb, tyb, env3, ind3:
                                k(f"({self.want(ta, tya, 'nat')} % {self.want(tb, tyb, 'nat')})", "nat", env3, ind3))
             return self.ev(e[2], env, ind, after_a)
+        if kind == "cond":
+            # `c ? a : b`: both alternatives continue with what follows
+            return self.cond(e[1], env, ind, lambda env2, ind2: self.ev(e[2], env2, ind2, k),
+                             lambda env2, ind2: self.ev(e[3], env2, ind2, k))
+        if kind == "call" and e[1] == "Iterator" and len(e[2]) == 1:
+            def after_it(t, ty, env2, ind2):
+                if ty in ("item", "nxt"):
+                    return k(self.coerce(t, ty, "nxt"), "nxt", env2, ind2)
+                self.refuse(f"an Iterator is made of a value of type {ty}")
+            return self.ev(e[2][0], env, ind, after_it)
         if kind == "call":
             return self.call(e, env, ind, k)
         if kind == "dot" and e[2] == "item" and e[1][0] == "call":
@@ -666,7 +713,9 @@ class Tr:
         if name == "hash":
             if len(args) != 1 or args[0] != ("id", "key") or "key" not in env:
                 self.refuse("`hash` of something that is not the parameter `key`")
-            return k("(h key)", "nat", env, ind)
+            return k(f"(h {env['key'][0]})", "nat", env, ind)
+        if self.gen.helper_source(self.cls, name, len(args)) is not None:
+            return self.call_helper(e, env, ind, k)
         target, argtys = self.gen.resolve(self, name, args, env)
         # evaluate the arguments left to right
         terms = []
@@ -698,6 +747,33 @@ class Tr:
                     terms.append(a)
                     return go(i + 1, env3, ind3)
                 return self.deref(args[i], env2, ind2, after_item)
+            return self.ev(args[i], env2, ind2, after)
+        return go(0, env, ind)
+
+    def call_helper(self, e, env, ind, k):
+        """a call of a private member that is not one of the translated members: the helper is translated as a function of
+        its own, its parameters typed by the arguments of this call"""
+        name, args = e[1], e[2]
+        vals = []
+
+        def go(i, env2, ind2):
+            if i == len(args):
+                tys = ["opt" if ty == "null" else ty for _, ty in vals]
+                hname, spec = self.gen.helper(self, name, tys, bool(env2.get("$data")))
+                env2 = self.wr(env2)
+                call = f"{hname} h t " + " ".join("none" if ty == "null" else t for t, ty in vals)
+                if spec["ret"] is None:
+                    return ([f"{ind2}match {call} with", f"{ind2}| none => none", f"{ind2}| some t =>"] +
+                            k("()", "unit", env2, ind2 + "  "))
+                r = self.fresh("r")
+                return ([f"{ind2}match {call} with", f"{ind2}| none => none", f"{ind2}| some (t, {r}) =>"] +
+                        k(r, spec["ret"], env2, ind2 + "  "))
+
+            def after(t, ty, env3, ind3):
+                if ty.endswith("@B") or ty not in LEAN_TY and ty != "null":
+                    self.refuse(f"argument of type {ty} in a call of the helper `{name}`")
+                vals.append((t, ty))
+                return go(i + 1, env3, ind3)
             return self.ev(args[i], env2, ind2, after)
         return go(0, env, ind)
 
@@ -803,9 +879,24 @@ class Tr:
                 return self.ev(c[3], env2, ind2, after_b)
             return self.ev(c[2], env, ind, after_a)
 
+        if c[0] == "bin" and c[1] == "<":
+            def lt_a(ta, tya, env2, ind2):
+                def lt_b(tb, tyb, env3, ind3):
+                    if {tya, tyb} != {"nat"}:
+                        self.refuse(f"`<` on values of types {tya} and {tyb}")
+                    return ([f"{ind3}if {ta} < {tb} then"] + kthen(env3, ind3 + "  ") + [f"{ind3}else"] + kelse(env3, ind3 + "  "))
+                return self.ev(c[3], env2, ind2, lt_b)
+            return self.ev(c[2], env, ind, lt_a)
+
         def after(t, ty, env2, ind2):
             if ty == "null":
                 return kelse(env2, ind2)
+            if ty == "item":
+                return kthen(env2, ind2)
+            if ty == "nat":
+                return ([f"{ind2}if {t} = 0 then"] + kelse(env2, ind2 + "  ") + [f"{ind2}else"] + kthen(env2, ind2 + "  "))
+            if ty == "bool":
+                return ([f"{ind2}if {t} = true then"] + kthen(env2, ind2 + "  ") + [f"{ind2}else"] + kelse(env2, ind2 + "  "))
             if ty != "opt":
                 self.refuse(f"condition of type {ty}")
             a = self.fresh("a")
@@ -834,6 +925,10 @@ class Tr:
             return self.run(list(s[1]) + rest, env, ind)
         if k == "loopback":
             return s[1](env, ind)
+        if k == "break":
+            if not getattr(self, "breaks", None):
+                self.refuse("`break` outside a loop")
+            return self.breaks[-1](env, ind)
         if k == "destroy":
             if s[1] not in env:
                 self.refuse(f"destructor call on unknown `{s[1]}`")
@@ -844,8 +939,8 @@ class Tr:
                 self.refuse("`new(p) Item(..)` with arguments other than the parameters `key`[, `value`]")
             if (vv is not None) != self.has_value:
                 self.refuse("`new(p) Item(..)`: number of constructor arguments")
-            val = "value" if vv is not None else "0"
-            return self.deref(("id", p), env, ind, lambda a, env2, ind2: [f"{ind2}let t := t.constructAt {a} key {val}"] + go(self.wr(env2), ind2))
+            val = env["value"][0] if vv is not None else "0"
+            return self.deref(("id", p), env, ind, lambda a, env2, ind2: [f"{ind2}let t := t.constructAt {a} {env['key'][0]} {val}"] + go(self.wr(env2), ind2))
         if k == "decl":
             ty, name, e = s[1], s[2], s[3]
             if name in env or name in MEMBERS or name in ("data", "endItem", "_begin", "_end"):
@@ -892,6 +987,16 @@ class Tr:
             # what follows the allocation becomes a function of its own (as after an `if`), so that its proof is separate
             return ([f"{ind}let t := if {env[x][0]}.isNone then ({{ t with freeItem := none }} : PTable).newBlockAll else t",
                      f"{ind}let {name} := if {env[x][0]}.isNone then t.freeItem else {env[x][0]}"] + self.cont(rest, env2, ind))
+        if k == "allocall_local":
+            # the fill loop pushes on the tested local (null here); `freeItem` is not touched
+            x = s[1]
+            if x not in env or env[x][1] != "opt":
+                self.refuse(f"the block allocation tests `{x}`, which is not a nullable pointer variable")
+            name = self.fresh("v_" + x + "_")
+            env2 = self.wr(env)
+            env2[x] = (name, "opt")
+            return ([f"{ind}let {name} := if {env[x][0]}.isNone then some (t.ipb * t.blocks + (t.ipb - 1)) else {env[x][0]}",
+                     f"{ind}let t := if {env[x][0]}.isNone then t.newBlockLocal else t"] + self.cont(rest, env2, ind))
         if k == "allocfirst":
             x = s[1]
             if x not in env:
@@ -937,7 +1042,7 @@ class Tr:
 
     def returns(self, s):
         """the statement never falls through"""
-        if s[0] == "return":
+        if s[0] in ("return", "break"):
             return True
         if s[0] in ("block", "block*"):
             return bool(s[1]) and self.returns(s[1][-1])
@@ -952,8 +1057,10 @@ class Tr:
             self.refuse("an `if` whose branches both fall through, inside a loop")
         self.njoins = getattr(self, "njoins", 0) + 1
         kname = f"{self.spec['lean']}_k{self.njoins}"
-        params = [p for p, _ in self.spec["params"]]
-        locs = [x for x in env if not x.startswith("$") and x not in params]
+        params = []
+        pn = {p for p, _ in self.spec["params"]}
+        nm = lambda x: x if x in pn else f"v_{x}"
+        locs = [x for x in env if not x.startswith("$")]
         marks = []
 
         def mark(env2, ind2):
@@ -979,13 +1086,12 @@ class Tr:
                 self.refuse(f"`{x}` has different types after the branches of an `if`")
         passed = [x for x in locs if ltys[x] is not None]
         data = all(m[1].get("$data") for m in marks)
-        kenv = {p: (p, ty) for p, ty in self.spec["params"]}
+        kenv = {}
         for x in locs:
-            kenv[x] = (f"v_{x}", ltys[x]) if ltys[x] is not None else (None, None)
+            kenv[x] = (nm(x), ltys[x]) if ltys[x] is not None else (None, None)
         if data:
             kenv["$data"] = True
-        sig = "".join(f" ({p} : {LEAN_TY[ty]})" for p, ty in self.spec["params"])
-        sig += "".join(f" (v_{x} : {LEAN_TY[ltys[x]]})" for x in passed)
+        sig = "".join(f" ({nm(x)} : {LEAN_TY[ltys[x]]})" for x in passed)
         body = self.run(rest, kenv, "  ")
         self.aux.append(f"@[simp] def {kname} (h : Nat → Nat) (t : PTable){self.osig()}{sig} : Option {self.ret_ty()} :=\n" + "\n".join(body) + "\n")
         out = []
@@ -1004,16 +1110,17 @@ class Tr:
             return self.run(rest, env, ind)
         self.njoins = getattr(self, "njoins", 0) + 1
         kname = f"{self.spec['lean']}_k{self.njoins}"
-        params = [p for p, _ in self.spec["params"]]
-        locs = [x for x in env if not x.startswith("$") and x not in params]
+        params = []
+        pn = {p for p, _ in self.spec["params"]}
+        nm = lambda x: x if x in pn else f"v_{x}"
+        locs = [x for x in env if not x.startswith("$")]
         passed = [x for x in locs if env[x][0] is not None]
-        kenv = {p: (p, ty) for p, ty in self.spec["params"]}
+        kenv = {}
         for x in locs:
-            kenv[x] = (f"v_{x}", env[x][1]) if env[x][0] is not None else (None, None)
+            kenv[x] = (nm(x), env[x][1]) if env[x][0] is not None else (None, None)
         if env.get("$data"):
             kenv["$data"] = True
-        sig = "".join(f" ({p} : {LEAN_TY[ty]})" for p, ty in self.spec["params"])
-        sig += "".join(f" (v_{x} : {LEAN_TY[env[x][1]]})" for x in passed)
+        sig = "".join(f" ({nm(x)} : {LEAN_TY[env[x][1]]})" for x in passed)
         body = self.run(rest, kenv, "  ")
         self.aux.append(f"@[simp] def {kname} (h : Nat → Nat) (t : PTable){self.osig()}{sig} : Option {self.ret_ty()} :=\n" + "\n".join(body) + "\n")
         return [f"{ind}{kname} h t {self.oarg()}" + " ".join(params + [env[x][0] for x in passed])]
@@ -1035,17 +1142,18 @@ class Tr:
         c, body, step = s[1], s[2], s[3]
         self.nloops += 1
         lname = f"{self.spec['lean']}_loop{self.nloops}"
-        params = [p for p, _ in self.spec["params"]]
-        locs = [x for x in env if not x.startswith("$") and x not in params]
+        params = []
+        locs = [x for x in env if not x.startswith("$")]
         for x in locs:
             if env[x][0] is None:
                 self.refuse(f"the local `{x}` is not yet assigned when the loop starts")
         ltys = {x: env[x][1] for x in locs}
-        sig = "".join(f" ({p} : {LEAN_TY[ty]})" for p, ty in self.spec["params"])
-        sig += "".join(f" (v_{x} : {LEAN_TY[ltys[x]]})" for x in locs)
-        lenv = {p: (p, ty) for p, ty in self.spec["params"]}
+        pn = {p for p, _ in self.spec["params"]}
+        nm = lambda x: x if x in pn else f"v_{x}"
+        sig = "".join(f" ({nm(x)} : {LEAN_TY[ltys[x]]})" for x in locs)
+        lenv = {}
         for x in locs:
-            lenv[x] = (f"v_{x}", ltys[x])
+            lenv[x] = (nm(x), ltys[x])
         if env.get("$data"):
             lenv["$data"] = True
 
@@ -1066,7 +1174,9 @@ class Tr:
         def kelse(env2, ind2):
             return self.run(rest, env2, ind2)
         self.in_loop = getattr(self, "in_loop", 0) + 1
+        self.breaks = getattr(self, "breaks", []) + [kelse]
         lines = self.cond(c, lenv, "  ", kthen, kelse)
+        self.breaks.pop()
         self.in_loop -= 1
         self.aux.append(f"def {lname} (h : Nat → Nat) (fuel : Nat) (t : PTable){self.osig()}{sig} : Option {self.ret_ty()} :=\n" + "\n".join(lines) + "\n")
         args = [self.coerce(env[x][0], env[x][1], ltys[x]) for x in locs]
@@ -1342,6 +1452,66 @@ class Gen:
         self.repo = Path(repo)
         self.specs = {}
         self.append_is_insert_at_end = {}
+        self.src, self.helpers, self.pending = {}, {}, []
+
+    RET = {"void": None, "Item*": "opt", "bool": "bool", "usize": "nat", "Iterator": "nxt"}
+
+    def helper_source(self, cls, name, nargs):
+        """(return type, parameter names, body) of a member function of the class that is not one of the translated members"""
+        if name in self.specs.get(cls, {}) and not self.specs[cls][name].get("helper"):
+            return None
+        if name in ("find", "insert", "remove", "clear", "append", "prepend", "hash", "swap", "contains", "size", "isEmpty",
+                    "front", "back", "removeFront", "removeBack", "Iterator"):
+            return None
+        src = self.src[cls]
+        ms = list(re.finditer(r"(?:static\s+)?(void|Item\s*\*|bool|usize|Iterator)\s+" + name + r"\s*\(([^()]*)\)\s*(?:const\s*)?\{", src))
+        if len(ms) != 1:
+            return None
+        m = ms[0]
+        ps = [x.strip() for x in m.group(2).split(",") if x.strip()]
+        if len(ps) != nargs:
+            return None
+        names = []
+        for x in ps:
+            mm = re.fullmatch(r"(?:const\s+)?(?:Item|T|V|usize)\s*(?:\*\s*\*?|&)?\s*(?:const\s+)?(\w+)", x)
+            if not mm:
+                raise Refuse(f"{cls}::{name}: parameter `{x}`")
+            names.append(mm.group(1))
+        body = src[m.end():balanced(src, m.end() - 1) - 1]
+        return re.sub(r"\s+", "", m.group(1)), names, body
+
+    def helper(self, tr, name, tys, data):
+        """the Lean function for the helper `name` called with arguments of the types `tys` (translated on first use)"""
+        cls = tr.cls
+        key = (name, tuple(tys), data)
+        self.helpers.setdefault(cls, {})
+        if key in self.helpers[cls]:
+            hname = self.helpers[cls][key]
+            return hname, self.specs[cls][hname]
+        if getattr(self, "helper_depth", 0) > 4:
+            raise Refuse(f"{cls}::{name}: helper calls nested too deeply (recursion?)")
+        ret, pnames, body = self.helper_source(cls, name, len(tys))
+        n = sum(1 for k_ in self.helpers[cls] if k_[0] == name)
+        hname = name if n == 0 else f"{name}_{n + 1}"
+        spec = {"lean": hname, "params": list(zip(pnames, tys)), "ret": self.RET[ret], "helper": True}
+        body = resolve_verify(body, f"{cls}::{name}")
+        p = P(tokenize(body), f"{cls}::{name}")
+        stmts = p.stmts()
+        if p.peek() is not None:
+            raise Refuse(f"{cls}::{name}: trailing tokens")
+        htr = Tr(cls, name, spec, self)
+        env = {pn: (pn, ty) for pn, ty in spec["params"]}
+        if data:
+            env["$data"] = True
+        self.helper_depth = getattr(self, "helper_depth", 0) + 1
+        lines = htr.run(stmts, env, "  ")
+        self.helper_depth -= 1
+        sig = "".join(f" ({pn} : {LEAN_TY[ty]})" for pn, ty in spec["params"])
+        self.pending += htr.aux + [f"def {hname} (h : Nat → Nat) (t : PTable){sig} : Option {htr.ret_ty()} :=\n" + "\n".join(lines) + "\n"]
+        spec["done"] = True
+        self.specs[cls][hname] = spec
+        self.helpers[cls][key] = hname
+        return hname, spec
 
     def resolve(self, tr, name, args, env):
         """overload resolution of a call to a sibling member: (lean name, parameter types)"""
@@ -1379,6 +1549,7 @@ class Gen:
         src = strip_comments((self.repo / header).read_text())
         specs = specs_for(cls)
         self.specs[cls] = specs
+        self.src[cls] = src
         flat = re.sub(r"\s+", "", src)
         wrapper = {"HashMap": "V&append(constT&key,constV&value){returninsert(_end,key,value).item->value;}",
                    "HashSet": "voidappend(constT&key){insert(_end,key);}",
@@ -1405,6 +1576,8 @@ class Gen:
                 texts.append(tr.aux + [f"def {spec['lean']} (h : Nat → Nat) (t : PTable){tr.osig()}{sig} : Option {tr.ret_ty()} :=\n" + "\n".join(lines) + "\n"])
             if any(x != texts[0] for x in texts):
                 raise Refuse(f"{cls}::{fn}: the const and the non-const overload differ")
+            parts += self.pending
+            self.pending = []
             parts += texts[0]
             spec["done"] = True
             summary.append(f"{fn}:{len(stmts)}")
@@ -1433,6 +1606,8 @@ class Gen:
             env = {pn: (pn, ty) for pn, ty in params}
             lines = tr.run(stmts, env, "  ")
             sig = "".join(f" ({pn} : {LEAN_TY[ty]})" for pn, ty in params)
+            parts += self.pending
+            self.pending = []
             parts += tr.aux
             parts.append(f"def {name} (h : Nat → Nat) (t : PTable){tr.osig()}{sig} : Option PTable :=\n" + "\n".join(lines) + "\n")
             spec["done"] = True
